@@ -109,15 +109,17 @@ static const char *check_pieces(bool h265, const struct fx *fx, const uint8_t *s
         *bad = i;
         if (o->size == (size_t)-1) { snprintf(msg, msgsz, "output %d has no readable block", i); return msg; }
         /* candidate prefix lengths */
-        size_t cand[24]; int nc = 0;
+        size_t cand[24 + 2]; int nc = 0;
         cand[nc++] = 0;
         size_t ostart[64], ohdr[64];
         int on = es_scan(o->bytes, o->size, ostart, ohdr, 64);
-        if (on > 0 && ostart[0] == 0) {
-            for (int k = 0; k + 1 < on && nc < 24; k++) {
-                if (ohdr[k] >= o->size || !is_prefix_type(h265, o->bytes + ohdr[k])) break;
+        /* the prepended part begins with an AUD / parameter set NAL unit; a corrupt parameter set that the
+         * framer stored may itself contain what this scanner takes for a start code, so every later start
+         * code of the output is a candidate end of the prepended part */
+        if (on > 0 && ostart[0] == 0 && ohdr[0] < o->size && is_prefix_type(h265, o->bytes + ohdr[0])) {
+            for (int k = 0; k + 1 < on && nc + 1 < 24; k++) {
                 cand[nc++] = ostart[k + 1];
-                if (ostart[k + 1] + 1 == ohdr[k + 1] - 3 && nc < 24) { /* 4-octet start code: also try its 3-octet reading */ cand[nc++] = ostart[k + 1] + 1; }
+                if (ohdr[k + 1] - ostart[k + 1] == 4) cand[nc++] = ostart[k + 1] + 1;   /* 4-octet start code: also its 3-octet reading */
             }
         }
         size_t best_end = (size_t)-1, best_q = 0, best_p = 0;
